@@ -230,3 +230,43 @@ def declare(reg, eng):
                      ("C17", "implies(not isnone(argument.generator), effect('generate') and effect_with_arg('cfg.set', 0, config.__xpm__) "
                              "and effect_arg('cfg.set', 1) == k and effect_arg('cfg.set', 3) == True)"),
                      ("C17", "implies(isnone(argument.generator), no_effect('cfg.set'))")]}})
+    declare_walk(reg, eng)
+
+
+def declare_walk(reg, eng):
+    """ConfigWalk.__call__ (C17, and the traversal every walker - Sealer, FromPython, PreTaskCollect - inherits): every element of a
+    list / dict / argument table is visited *inside* the context entry of its own position (index, key, argument name), and the
+    position is popped afterwards; the context path is the same before and after a visit (ML2: the contract is used for the
+    recursive calls).  The hooks stub / preprocess / postprocess are opaque (assumed not to touch the walker's own fields)."""
+    eng.load("ConfigWalk.__call__", "core/objects.py")
+    eng.load("ConfigWalk.list", "core/objects.py", inline=True)
+    eng.load("ConfigWalk.map", "core/objects.py", inline=True)
+    reg.klass("ConfigWalk", [], {"context": "ConfigWalkContext", "visited": "dict", "recurse_task": "bool"})
+    reg.klass("WalkCM", [], {"ctx": "ConfigWalkContext", "key": None, "saved": "opt:Path"})
+    # trusted: @contextmanager generator (try: set; yield; finally: restore)
+    reg.contract("ConfigWalkContext.push", params=["self", "key"], types={"self": "ConfigWalkContext"}, fresh="WalkCM", returns="WalkCM", modifies=[],
+                 ensures=["result.ctx is self", "result.key == key"])
+    reg.contract("WalkCM.__enter__", params=["self"], types={"self": "WalkCM"}, modifies=["self.ctx._configpath", "self.saved"], effect="walk.push",
+                 ensures=["self.saved == old(self.ctx._configpath)", "not isnone(self.ctx._configpath)"])
+    reg.contract("WalkCM.__exit__", params=["self"], types={"self": "WalkCM"}, modifies=["self.ctx._configpath"], effect="walk.pop",
+                 no_yield=True, ensures=["self.ctx._configpath == self.saved"])
+    reg.contract("ConfigWalk.stub", params=["self", "config"], modifies=[], effect="walk.stub")
+    reg.contract("ConfigWalk.preprocess", params=["self", "config"], returns="tuple", fresh="tuple", modifies=[], ensures=["length(result) == 2"], effect="walk.pre")
+    reg.contract("ConfigWalk.postprocess", params=["self", "stub", "config", "values"], modifies=[], effect="walk.post",
+                 raises={"Exception": {"when": [], "modifies": []}})
+    VISIT = ("effect_count('walk.push') == 1 and effect_arg('walk.push', 0).key == %s and effect_count('walk.call') == 1 and effect_arg('walk.call', 1) is %s "
+             "and effect_count('walk.pop') == 1 and effect_before('walk.push', 'walk.call') and effect_before('walk.call', 'walk.pop')")
+    reg.contract("ConfigWalk.__call__", params=["self", "x"], types={"self": "ConfigWalk"}, no_replay=True, effect="walk.call",
+                 ensures=[("C17", "self.context._configpath == old(self.context._configpath)"),
+                          ("C17", "implies(isclass(x, list), reached_loop('(i, sv)'))"),
+                          ("C17", "implies(isclass(x, dict), reached_loop('(key, value)'))")],
+                 raises={"NotImplementedError": {"when": []}, "Exception": {"when": []}, "AssertionError": {"when": []}},
+                 modifies=None,
+                 loops={"(i, sv)": {"no_break": True, "invariants": ["self.context._configpath == old(self.context._configpath)"],
+                                    "body_post": [("C17", VISIT % ("str(i)", "sv"))]},
+                        "(key, value)": {"no_break": True, "invariants": ["self.context._configpath == old(self.context._configpath)"],
+                                         "body_post": [("C17", VISIT % ("key", "value"))]},
+                        "(arg, v)": {"no_break": True, "invariants": ["self.context._configpath == old(self.context._configpath)"],
+                                     "body_post": [("C17", "implies(not isnone(v), " + VISIT % ("arg.name", "v") + ")"),
+                                                   ("C17", "implies(isnone(v), no_effect_here('walk.call') and no_effect_here('walk.push'))")]}})
+    reg.contracts["ConfigWalk.__call__"]["locals"] = {"arg": "Argument", "info": "ConfigInformation"}
